@@ -378,6 +378,9 @@ func runLoad(l loadSpec) (k intoto.Key, err error, panicked bool) {
 		} else {
 			err = k.LoadKeyReaderDefaults(r)
 		}
+	case "sigcert-defaults":
+		// the route by which verification obtains a functionary key from a signature's certificate
+		k, err = intoto.Signature{KeyID: "00", Sig: "00", Certificate: string(l.text())}.GetCertificate()
 	case "svid":
 		priv, e := x509.ParsePKCS8PrivateKey(l.SvidKey)
 		if e != nil {
@@ -751,6 +754,12 @@ func coqAlgs(l loadSpec) string {
 func coqModel(l loadSpec) string {
 	var call string
 	switch l.API {
+	case "sigcert-defaults":
+		// Signature.GetCertificate: empty certificate refused, else LoadKeyReaderDefaults on the string
+		if len(l.text()) == 0 {
+			return "(show_load (@Err key err_no_pem_block))"
+		}
+		return "(show_load (load_key_reader_defaults sha_id b64_lines (RData " + coqPemData(l.text()) + ")))"
 	case "svid":
 		return "(show_load (svid_in_toto_key sha_id b64_lines (Some " + coqPemData(l.PEM) + ") " + coqHex(l.SvidCert) + "))"
 	case "reader", "reader-defaults":
@@ -1189,6 +1198,58 @@ func (g *gen) svidLoads(tier string) {
 			e := g.expectOK(p, f, "plain", l)
 			e.Scheme, e.Algs, e.CertDER = defaultScheme[p.keytype()], []string{"sha256", "sha512"}, cf.DER
 			g.emit("svid-key-"+p.keytype(), l, e)
+		}
+	}
+}
+
+// Certificates outside their validity window: loading a key is independent of the clock. An expired
+// (short-lived SVID), future-dated or inverted-window certificate of a supported key yields the key with the type,
+// scheme, public half and the SAME id as the pair's other forms (the loads are recorded, so they take part in the
+// pair's one-id relation); whether a certificate is acceptable is decided against a layout root when verifying (C07).
+func certWindowDER(p pair, nb, na time.Time, selfSigned bool) []byte {
+	serial++
+	tmpl := &x509.Certificate{SerialNumber: big.NewInt(serial), Subject: pkix.Name{CommonName: "c19 window " + p.Name},
+		NotBefore: nb, NotAfter: na, KeyUsage: x509.KeyUsageDigitalSignature}
+	var parent *x509.Certificate = tmpl
+	var signer crypto.Signer = p.Signer
+	if !selfSigned {
+		parent, signer = theCA().Cert, theCA().Signer
+	}
+	der, err := x509.CreateCertificate(rand.Reader, tmpl, parent, p.Signer.Public(), signer)
+	if err != nil {
+		panic(fmt.Sprintf("window certificate for %s: %v", p.Name, err))
+	}
+	return der
+}
+
+func (g *gen) certWindowLoads(tier string) {
+	now := time.Now()
+	h, y := time.Hour, 365*24*time.Hour
+	windows := []struct {
+		name   string
+		nb, na time.Time
+	}{
+		{"expired-1h", now.Add(-25 * h), now.Add(-h)},
+		{"expired-10y", now.Add(-11 * y), now.Add(-10 * y)},
+		{"future-1h", now.Add(h), now.Add(25 * h)},
+		{"future-10y", now.Add(10 * y), now.Add(11 * y)},
+		{"inverted-past", now.Add(-h), now.Add(-25 * h)},
+		{"inverted-around-now", now.Add(h), now.Add(-h)},
+		{"valid-twin", now.Add(-h), now.Add(24 * h)},
+	}
+	want := map[string]bool{"rsa2048": true, "ecdsa256-fresh0": true, "ecdsa384-fresh0": true, "ed25519-fresh0": true}
+	for pi, p := range g.pairs {
+		if tier != "thorough" && !want[p.Name] {
+			continue
+		}
+		for wi, w := range windows {
+			der := certWindowDER(p, w.nb, w.na, (pi+wi)%2 == 0)
+			f := form{"cert-" + w.name, "CERTIFICATE", der, false, true}
+			text := pemOf(f.PemType, f.DER)
+			for _, api := range append([]string{"sigcert-defaults"}, apis...) {
+				l := g.specFor(p, api, text)
+				g.emit("cert-validity-window-"+w.name, l, g.expectOK(p, f, w.name, l))
+			}
 		}
 	}
 }
@@ -1744,6 +1805,7 @@ func main() {
 		g.sizedLoads(tier)
 		g.bigCertLoads(tier)
 		g.svidLoads(tier)
+		g.certWindowLoads(tier)
 		g.multiBlockLoads(tier)
 		g.greyLoads(tier)
 		g.refusedLoads(tier)
